@@ -97,6 +97,20 @@ end
 def parseKinds {K S : Type} [DecidableEq K] (g : Grammar K S) (fuel : Nat) (ts : List K) : PRes K S K :=
   parseWith g id g.eof fuel ts
 
+/-- `Parser.Parse` as a yes/no decision. `eofCheck`: after the start rule the next token must be the
+    end of input (the repaired behaviour, D09); without it trailing input is silently ignored. -/
+def acceptsStatement {K S : Type} [DecidableEq K] (g : Grammar K S) (eofCheck : Bool) (fuel : Nat) (ts : List K) : Bool :=
+  match parseKinds g fuel ts with
+  | .accept rest _ => !eofCheck || rest.isEmpty
+  | _ => false
+
+/-- The semantic parser: the same machine, whose hooks may turn an acceptance into an error. -/
+def acceptsSemantic {K S : Type} [DecidableEq K] (g : Grammar K S) (hooksOk : List (Ev K S K) → Bool)
+    (eofCheck : Bool) (fuel : Nat) (ts : List K) : Bool :=
+  match parseKinds g fuel ts with
+  | .accept rest evs => (!eofCheck || rest.isEmpty) && hooksOk evs
+  | _ => false
+
 def PRes.accepted {K S T : Type} : PRes K S T → Bool
   | .accept _ _ => true
   | _ => false
